@@ -105,18 +105,20 @@ reg("C20",
 reg("C12",
     "Schedule exploration with history checking (plus a systematic core: every schedule with <= k deviations from the default "
     "policy for tiny pipelines): the real worker threads run under a deterministic cooperative scheduler "
-    "(own queue class substituted for auditok.workers.Queue; scheduled Worker.start/join; queue-wait timeouts and pre-emptions "
-    "are seeded decisions; optional line-level pre-emption through sys.monitoring) plus a real-time stress mode; every "
+    "(own queue / event classes substituted for whatever names auditok.workers binds to queue.Queue, queue.SimpleQueue or "
+    "threading.Event; scheduled Worker.start/join; queue-wait timeouts and pre-emptions are seeded decisions; pre-emption at "
+    "statement starts of workers.py, at statement starts of every auditok module, or between bytecode instructions through "
+    "sys.monitoring) plus a real-time stress mode; every "
     "observer's recorded message history is compared with split() and thread termination is decided in logical time "
     "(deadlock, only-timeouts, and no-progress verdicts); hostile variants: logger on, event-free streams, an observer killed "
-    "mid-stream, a failing close(), blocking waits, tokenizer-first start order, bounded queues.",
+    "mid-stream, a failing close(), blocking waits, tokenizer-first start order, bounded queues, overlapping readers.",
     "Trusts: queue.Queue's own internals (replaced), split() as the detection oracle (tied to the model by C05). Schedules are sampled, not exhausted.",
     "runtime monitoring: deterministic scheduler + offline history checker (exactly-once, order, termination)", "DESIGN.md sections 6, 7 C12")
 reg("C13",
     "Same scheduler; the byte content and headers of the files written by StreamSaverWorker, AudioEventsJoinerWorker and "
     "RegionSaverWorker are compared with the blocks logged at the reader boundary and with the detections, across cache sizes, "
-    "empty/event-free streams, silence durations, templates, short-read sources, stopped runs, writer-lagging schedules (a "
-    "10 400-block backlog), a systematic <=k-deviation core and a real-time stress mode with the real queue.",
+    "empty/event-free streams, silence durations, templates, short-read sources, overlapping readers, big-audio runs (0.2-1.5 MB "
+    "through saver, joiner and region saver), stopped runs, writer-lagging schedules (a 10 400-block backlog), a systematic <=k-deviation core and a real-time stress mode with the real queue.",
     "Trusts: stdlib wave/open for reading back. Schedules are sampled.",
     "runtime monitoring: deterministic scheduler + conservation oracle (blocks in == blocks saved) on recorded histories", "DESIGN.md sections 6, 7 C13")
 reg("C14",
@@ -124,11 +126,12 @@ reg("C14",
     "schedules around it are explored by the seeded strategies; prefix-consistency and clean shutdown are checked on the "
     "recorded history and files (systematic core: every stop point x every schedule with <= k deviations for tiny pipelines; "
     "injected source faults before the stop; a starved saver at the stop); real command-line children receive SIGINT under back-pressure.",
-    "Trusts: 'moment of the stop' = enqueue of the stop marker; one read in flight allowed. Interleavings per stop point are sampled.",
+    "Trusts: 'moment of the stop' = the first effect of stop_all() another thread could notice (a put, an event set, at the latest the join; on the pinned tree the enqueue of the stop marker); one read in flight allowed. Interleavings per stop point are sampled.",
     "runtime monitoring: stop-point enumeration under a deterministic scheduler + SIGINT on real child processes", "DESIGN.md sections 6, 7 C14", category="fault_enumeration")
 reg("C15",
     "End-to-end differential monitor: cmdline.main(argv) in-process and real child processes vs split() called with kwargs "
     "rebuilt from argv with the documented defaults hard-coded; output parsed back through an independent formatter oracle; "
-    "files checked byte-exactly; formatter checked on generated durations.",
+    "files checked byte-exactly; formatter checked on generated durations; stdin fed by a separate producer process through a real "
+    "pipe; a tool that never exits is a verdict in logical time (iterations of its own wait loop), not a watchdog.",
     "Trusts: split() as detection oracle (C05). {timestamp} matched by shape only. Plotting, echo, microphone, compressed formats not covered.",
     "runtime monitoring: end-to-end differential oracle on stdout, exit status and files", "DESIGN.md section 7 C15")
